@@ -9,7 +9,7 @@ PID = 'C14'
 MODULES = ['NoteSeqVerif.Props.C14']
 EXE = 'drv_c14'
 THEOREMS = [
-    'NSV.C14.sustain_spec',
+    'NSV.C14.sustain_spec', 'NSV.C14.sustain_pointwise',
     'NSV.C14.sustain_never_shortens', 'NSV.C14.sustain_drums_untouched',
     'NSV.C14.sustain_other_instruments_untouched', 'NSV.C14.sustain_no_pedal_identity',
     'NSV.C14.sustain_total_covers', 'NSV.C14.sustain_rejects_quantized',
@@ -241,7 +241,7 @@ def precondition(ns):
     return True
 
 
-def held_ends(ns, ctl=64):
+def held_ends(ns, ctl=64, downs=None):
     """from the property text: for each note (storage order) the time it must end at."""
     pedal = {}       # instrument -> [(time, is_release)] in effect order
     times = []
@@ -257,15 +257,19 @@ def held_ends(ns, ctl=64):
             times += [F(n.start_time), F(n.end_time)]
     last = max(times) if times else F(0)
     out = []
+    if downs is None:
+        downs = []
     for i, n in enumerate(ns.notes):
         end = F(n.end_time)
         if n.is_drum:
             out.append(end)
+            downs.append(False)
             continue
         down = False
         for t, release in pedal.get(n.instrument, []):
             if t <= end:
                 down = not release
+        downs.append(down)
         if not down:
             out.append(end)
             continue
@@ -275,6 +279,36 @@ def held_ends(ns, ctl=64):
                   if j != i and not m.is_drum and m.instrument == n.instrument and m.pitch == n.pitch and F(m.start_time) >= end]
         out.append(min(until))
     return last, out
+
+
+def hold_reasons(ns, ctl, want):
+    """which clause of the statement decides each held note (evidence histogram only)."""
+    f = set()
+    downs = []
+    last, _ = held_ends(ns, ctl, downs)
+    for i, (n, w) in enumerate(zip(ns.notes, want)):
+        end = F(n.end_time)
+        if n.is_drum:
+            continue
+        rel = any(c.control_number == ctl and c.instrument == n.instrument and c.control_value < 64 and F(c.time) == w and w > end
+                  for c in ns.control_changes)
+        strike = any(j != i and not m.is_drum and m.instrument == n.instrument and m.pitch == n.pitch and F(m.start_time) == w and w >= end
+                     for j, m in enumerate(ns.notes))
+        if downs[i]:
+            f.add('ends-with-pedal-down')
+        if w != end:
+            f.add('held')
+            if rel:
+                f.add('held-until-release')
+            if strike:
+                f.add('held-until-restrike')
+            if w == last:
+                f.add('held-until-last-event')
+            if rel and strike:
+                f.add('release-and-restrike-coincide')
+        elif strike and downs[i]:
+            f.add('restrike-exactly-at-note-end')
+    return f
 
 
 def oracle_case(sl, ctl, ns):
@@ -305,9 +339,7 @@ def oracle_case(sl, ctl, ns):
         if F(o.end_time) != w:
             return 'note %d (inst %d pitch %d %r-%r%s) ends at %r, the pedal holds it until %r' % (
                 i, n.instrument, n.pitch, n.start_time, n.end_time, ' drum' if n.is_drum else '', o.end_time, float(w)), feats
-        if w != F(n.end_time):
-            feats.add('held')
-            feats.add('held-to-last-event' if w == last else 'held-to-release-or-restrike')
+    feats |= hold_reasons(ns, ctl, want)
     chk = type(ns)()
     chk.CopyFrom(out)
     for n, o in zip(ns.notes, chk.notes):
@@ -387,6 +419,37 @@ def spec_line(ns, ctl):
     return wf, precondition(ns), last, want
 
 
+def shrink(sl, ctl, ns):
+    """greedy minimisation of a failing input: drop notes / control changes / other containers while the
+    oracle still reports a failure on the real code."""
+    def fails(x):
+        return oracle_case(sl, ctl, x)[0] is not None
+    cur = type(ns)()
+    cur.CopyFrom(ns)
+    for f in ('tempos', 'time_signatures', 'key_signatures', 'text_annotations', 'pitch_bends', 'section_annotations',
+              'section_groups', 'sequence_metadata', 'source_info', 'instrument_infos', 'part_infos', 'id', 'filename',
+              'subsequence_info', 'ticks_per_quarter'):
+        t = type(ns)()
+        t.CopyFrom(cur)
+        t.ClearField(f)
+        if fails(t):
+            cur = t
+    changed = True
+    while changed:
+        changed = False
+        for field in ('notes', 'control_changes'):
+            k = 0
+            while k < len(getattr(cur, field)):
+                t = type(ns)()
+                t.CopyFrom(cur)
+                del getattr(t, field)[k]
+                if fails(t):
+                    cur, changed = t, True
+                else:
+                    k += 1
+    return cur
+
+
 def run(chk):
     import warnings
     warnings.filterwarnings('ignore')
@@ -401,56 +464,70 @@ def run(chk):
                 '(touching, zero-length, gaps), drums mixed in, pedal events (values 0/63/64/127/any, repeated ons, offs without on, other controllers, '
                 'instruments without notes) on the notes\' own start/end times; "overlap" = overlapping / co-starting / identical same-pitch notes; '
                 '"malformed" = reversed notes, negative times, controller values outside 0..127, quantized input, generic NSGen sequences. '
+                'Each input goes through the real function and the compiled Lean model (whole result compared exactly) and through the '
+                'independent oracle; the Lean specification is also compared with the oracle. '
                 'non-trivial = distinct input on which at least one note end or total_time changed, or an error was raised')
-    cases = []      # (stream, ctl, ns)
-    for name, obj in corpus_cases(PID):
-        cases.append(('corpus', obj.get('ctl', 64), nswire.decode(obj['sequence'])))
-    for stream, gen, n in (('valid', gen_valid, chk.n(4000, 120000)), ('overlap', gen_overlap, chk.n(2000, 60000)),
-                           ('malformed', gen_malformed, chk.n(1000, 30000))):
-        rng = chk.subrng(stream)
-        for _ in range(n):
-            ctl, ns = gen(rng)
-            cases.append((stream, ctl, ns))
-    reqs, impl = [], []
-    for stream, ctl, ns in cases:
-        enc = nswire.encode(ns)
-        reqs.append('sustain %d %s' % (ctl, enc))
-        impl.append(_call(sl, ctl, ns))
-        reqs.append('spec %d %s' % (ctl, enc))
-        wf, pre, last, want = spec_line(ns, ctl)
-        impl.append('spec %s %s %s %d%s' % ('1' if wf else '0', '1' if pre else '0', rat(last), len(want),
-                                            ''.join(' ' + rat(w) for w in want)))
-    model = chk.driver(EXE, reqs)
-    for i, (stream, ctl, ns) in enumerate(cases):
-        a, b = impl[2 * i], model[2 * i]
-        changed = a.startswith('err') or a.split(' ', 1)[1] != reqs[2 * i].split(' ', 2)[2]
-        chk.count(stream, reqs[2 * i][:3000], changed and b != 'bad-op', sorted(features(ns, ctl, a)))
-        if a != b:
-            chk.disagree(stream, {'ctl': ctl, 'sequence': reqs[2 * i].split(' ', 2)[2][:6000]}, a[:800], b[:800])
-        # the Lean specification and the Python oracle must be the same reading of the statement.
-        # (NoSamePitchOverlap in Lean does not look at start<=end; compare it only on well-formed input.)
-        # Lean's NoSamePitchOverlap does not look at start<=end: compare that flag on well-formed input only;
-        # "another note" is by value in Lean and by position here: they coincide when the precondition holds
-        # (then no two pitched notes are equal), so the held ends are compared there and `last` always.
-        sa, sb = impl[2 * i + 1].split(), model[2 * i + 1].split()
-        if sa[1] == '0':
-            sa[2] = sb[2] = '-'
-        if sa[1:3] != ['1', '1']:
-            sa, sb = sa[:4], sb[:4]
-        chk.count('spec-vs-oracle', None)
-        if sa != sb:
-            chk.disagree('spec-vs-oracle', {'ctl': ctl, 'sequence': reqs[2 * i].split(' ', 2)[2][:6000]}, ' '.join(sa)[:800], ' '.join(sb)[:800])
-    for j in (0, len(cases) // 2, len(cases) - 1):
-        chk.sample({'stream': cases[j][0], 'request': reqs[2 * j][:400] + ' …', 'impl': impl[2 * j][:300] + ' …',
-                    'model_equal': impl[2 * j] == model[2 * j], 'spec': model[2 * j + 1][:200]})
-    # oracle on the implementation (independent of the model)
-    for i, (stream, ctl, ns) in enumerate(cases):
-        r, feats = oracle_case(sl, ctl, ns)
-        chk.count('oracle', None, False, sorted(feats))
-        if r:
-            chk.fail(r, {'ctl': ctl, 'sequence': reqs[2 * i].split(' ', 2)[2]})
-            if len(chk.failures) > 20:
-                break
+
+    def batches():
+        cs = [('corpus', obj.get('ctl', 64), nswire.decode(obj['sequence'])) for _, obj in corpus_cases(PID)]
+        yield cs
+        for stream, gen, n in (('valid', gen_valid, chk.n(4000, 120000)), ('overlap', gen_overlap, chk.n(2000, 60000)),
+                               ('malformed', gen_malformed, chk.n(1000, 30000))):
+            rng = chk.subrng(stream)
+            done = 0
+            while done < n:
+                k = min(5000, n - done)
+                yield [(stream,) + gen(rng) for _ in range(k)]
+                done += k
+
+    sampled = set()
+    for cases in batches():
+        reqs, impl = [], []
+        for stream, ctl, ns in cases:
+            enc = nswire.encode(ns)
+            reqs.append('sustain %d %s' % (ctl, enc))
+            impl.append(_call(sl, ctl, ns))
+            reqs.append('spec %d %s' % (ctl, enc))
+            wf, pre, last, want = spec_line(ns, ctl)
+            impl.append('spec %s %s %s %d%s' % ('1' if wf else '0', '1' if pre else '0', rat(last), len(want),
+                                                ''.join(' ' + rat(w) for w in want)))
+        model = chk.driver(EXE, reqs)
+        for i, (stream, ctl, ns) in enumerate(cases):
+            a, b = impl[2 * i], model[2 * i]
+            seq = reqs[2 * i].split(' ', 2)[2]
+            changed = a.startswith('err') or a.split(' ', 1)[1] != seq
+            chk.count(stream, reqs[2 * i][:3000], changed and b != 'bad-op', sorted(features(ns, ctl, a)))
+            if a != b:
+                chk.disagree(stream, {'ctl': ctl, 'sequence': seq}, a[:1500], b[:1500])
+            # The Lean specification and the Python oracle must be the same reading of the statement.
+            # Lean's NoSamePitchOverlap does not look at start<=end: that flag is compared on well-formed input only;
+            # "another note" is by value in Lean and by position here: they coincide when the precondition holds
+            # (then no two pitched notes are equal), so the held ends are compared there, `last` always.
+            sa, sb = impl[2 * i + 1].split(), model[2 * i + 1].split()
+            if sa[1] == '0':
+                sa[2] = sb[2] = '-'
+            if sa[1:3] != ['1', '1']:
+                sa, sb = sa[:4], sb[:4]
+            chk.count('spec-vs-oracle', None, False, 'held-ends-compared' if len(sa) > 4 else 'flags-and-last-only')
+            if sa != sb:
+                chk.disagree('spec-vs-oracle', {'ctl': ctl, 'sequence': seq}, ' '.join(sa)[:1500], ' '.join(sb)[:1500])
+            if stream not in sampled and changed:
+                sampled.add(stream)
+                chk.sample({'stream': stream, 'request': reqs[2 * i][:400] + ' …', 'impl': a[:300] + ' …',
+                            'model_equal': a == b, 'spec': model[2 * i + 1][:200]})
+        # oracle on the implementation (independent of the model)
+        for i, (stream, ctl, ns) in enumerate(cases):
+            r, feats = oracle_case(sl, ctl, ns)
+            chk.count('oracle', None, False, sorted(feats))
+            if r:
+                if len(chk.failures) < 3:
+                    small = shrink(sl, ctl, ns)
+                    r2 = oracle_case(sl, ctl, small)[0]
+                    chk.fail(r2 or r, {'ctl': ctl, 'sequence': nswire.encode(small), 'shrunk_from': reqs[2 * i].split(' ', 2)[2]})
+                else:
+                    chk.fail(r, {'ctl': ctl, 'sequence': reqs[2 * i].split(' ', 2)[2]})
+        if len(chk.failures) > 20:
+            break
 
 
 def replay(chk, obj):
